@@ -3,7 +3,7 @@
    the manual, the reference BER decoder with More/Fail, machines modelled on
    ber_decode_primitive and ber_check_tags); tied to the C by checks/c05.py. *)
 From Coq Require Import ZArith List Bool.
-From A1 Require Import Base.Bytes Leaf.BerTL Leaf.BerTLProofs Rt.Types Rt.Comb Rt.Der Rt.DerProofs Rt.Resume Rt.ResumeProofs Rt.Oer Rt.ResumeX Rt.ResumeXProofs Rt.ResumeT Rt.ResumeTProofs.
+From A1 Require Import Base.Bytes Leaf.BerTL Leaf.BerTLProofs Rt.Types Rt.Comb Rt.Der Rt.DerProofs Rt.Resume Rt.ResumeProofs Rt.Oer Rt.ResumeX Rt.ResumeXProofs Rt.ResumeT Rt.ResumeTProofs Rt.SafetySkip Rt.ResumeS.
 Import ListNotations.
 Local Open Scope Z_scope.
 
@@ -197,3 +197,31 @@ Theorem C05_primm_chunk_independent : forall mode tags input chunks,
   chunking_of input chunks -> feed0 (primm_step mode tags) None chunks = primm_step mode tags None input.
 Proof. exact primm_chunk_independent. Qed.
 Print Assumptions C05_primm_chunk_independent.
+
+(* fourth layer (Rt/ResumeS.v): the branch of SET_decode_ber / CHOICE_decode_ber / SEQUENCE_decode_ber that skips a TLV
+   the reader does not know (extensible type, newer sender): every final answer of ber_skip_length (a count, the error)
+   is stable under more input; the branch - nothing consumed on RC_WMORE, tag + L + V advanced over in one step - is
+   coherent, so every chunking ends like the one-shot call; the variant that advances over the tag before asking for
+   the length (RC_WMORE with the tag octets consumed, no state recording it) is not resumable *)
+Theorem C05_ber_skip_length_final : forall c buf r ext,
+  ber_skip_length c buf = r -> sfin r -> ber_skip_length c (buf ++ ext) = r.
+Proof. exact ber_skip_length_final. Qed.
+Print Assumptions C05_ber_skip_length_final.
+
+Theorem C05_skipu_coherent : coherent (skipu_step false).
+Proof. exact skipu_coherent. Qed.
+Print Assumptions C05_skipu_coherent.
+
+Theorem C05_skipu_chunk_independent : forall input chunks,
+  chunking_of input chunks -> feed0 (skipu_step false) tt chunks = skipu_step false tt input.
+Proof. exact skipu_chunk_independent. Qed.
+Print Assumptions C05_skipu_chunk_independent.
+
+Theorem C05_skipu_tag_first_oneshot_same : forall w, fst (skip_unknown true w) = fst (skip_unknown false w) /\
+  (fst (skip_unknown false w) = OK -> skip_unknown true w = skip_unknown false w).
+Proof. exact skipu_oneshot_same. Qed.
+Print Assumptions C05_skipu_tag_first_oneshot_same.
+
+Theorem C05_skipu_tag_first_refuted : ~ resumable (skipu_step true).
+Proof. exact skipu_tag_first_refuted. Qed.
+Print Assumptions C05_skipu_tag_first_refuted.
